@@ -207,6 +207,9 @@ fn mk_codes<C: CI>(codes: &[u8]) -> Seq<C> {
 
 // ------------------------------------------------------------------ (c) raw image
 fn image_checks<C: CI>(ctx: &mut Ctx, s: &Seq<C>, m: &[u8], prov: &str) {
+    image_checks_n::<C>(ctx, s, m, prov, true)
+}
+fn image_checks_n<C: CI>(ctx: &mut Ctx, s: &Seq<C>, m: &[u8], prov: &str, all_counts: bool) {
     let a = C::alpha();
     let name = C::NAME;
     let bits = a.bits as usize;
@@ -232,6 +235,9 @@ fn image_checks<C: CI>(ctx: &mut Ctx, s: &Seq<C>, m: &[u8], prov: &str) {
         if ctx.lite && n % 5 != 0 && n + 3 < cap {
             continue;
         }
+        if !all_counts && n % 97 != 0 && n + 3 < cap && !(n + 2 >= m.len() && n <= m.len() + 2) {
+            continue; // long sequences: sampled counts plus the ones around len and cap
+        }
         ctx.eval();
         let r = observe(|| Seq::<C>::from_raw(n, &raw));
         let fits = n * bits <= raw.len() * 64;
@@ -247,6 +253,19 @@ fn image_checks<C: CI>(ctx: &mut Ctx, s: &Seq<C>, m: &[u8], prov: &str) {
             }
             Ok(None) => check!(ctx, !fits, format!("from_raw|{name}|refuses-fitting"), "{what}: from_raw({n}, {} words) = None but {n} symbols fit", raw.len()),
             Err(pm) => check!(ctx, false, format!("from_raw|{name}|panics"), "{what}: from_raw({n}) panicked {pm}"),
+        }
+    }
+    // counts whose bit length overflows the machine word do not fit either
+    for far in [usize::MAX, usize::MAX / bits, (usize::MAX / bits).saturating_add(1), 1usize << 63, ((1usize << 63) / bits).saturating_mul(2), (1usize << 62) + 1] {
+        if far <= cap {
+            continue;
+        }
+        ctx.eval();
+        cell!(ctx, "{name}/from_raw/far");
+        match observe(|| Seq::<C>::from_raw(far, &raw)) {
+            Ok(None) => {}
+            Ok(Some(q)) => check!(ctx, false, format!("from_raw|{name}|accepts-too-many"), "{what}: from_raw({far:#x}, {} words) = Some(len {}) but the image holds only {cap} symbols", raw.len(), q.len()),
+            Err(_) => {} // a refusal by panic (debug overflow check) still returns no sequence
         }
     }
     let head = s.verif_layout().0;
@@ -318,6 +337,58 @@ fn images<C: CI>(ctx: &mut Ctx) {
     });
 }
 
+/// long sequences (4..33 words): word-at-a-time fast paths and reallocation states
+fn images_long<C: CI>(ctx: &mut Ctx) {
+    let a = C::alpha();
+    let name = C::NAME;
+    let noff = n_offsets(a.bits);
+    if ctx.lite {
+        return;
+    }
+    ctx.group(&format!("{name}/raw-image-long"), |ctx| {
+        for (i, n) in long_lengths(a.bits).into_iter().enumerate() {
+            let codes = rand_codes(&mut ctx.rng, a, n);
+            let rev: Vec<u8> = codes.iter().rev().copied().collect();
+            let parsed = mk::<C>(&codes);
+            image_checks_n::<C>(ctx, &parsed, &codes, "parsed-long", false);
+            image_checks_n::<C>(ctx, &parsed.to_rev(), &rev, "to_rev-of-owned-long", false);
+            let mut inplace = parsed.clone();
+            inplace.rev();
+            image_checks_n::<C>(ctx, &inplace, &rev, "rev-in-place-long", false);
+            let mut edited = inplace.clone();
+            edited.push(C::try_from_bits(codes[0]).unwrap());
+            let mut m2 = rev.clone();
+            m2.push(codes[0]);
+            image_checks_n::<C>(ctx, &edited, &m2, "rev-then-push-long", false);
+            for pad in [1 % noff, (i * 7 + 2) % noff] {
+                let p = Padded::<C>::new(&mut ctx.rng, pad, &codes, 2);
+                image_checks_n::<C>(ctx, &p.slice().to_owned(), &codes, "to_owned-of-offset-slice-long", false);
+                image_checks_n::<C>(ctx, &p.slice().to_rev(), &rev, "to_rev-of-offset-slice-long", false);
+            }
+        }
+    });
+}
+fn images_long_comp<C: CI + ComplementMut>(ctx: &mut Ctx) {
+    let a = C::alpha();
+    let name = C::NAME;
+    if ctx.lite {
+        return;
+    }
+    ctx.group(&format!("{name}/raw-image-long-complement"), |ctx| {
+        for n in long_lengths(a.bits) {
+            let codes = rand_codes(&mut ctx.rng, a, n);
+            let comp: Vec<u8> = codes.iter().map(|&c| a.comp_code(c)).collect();
+            let rc: Vec<u8> = comp.iter().rev().copied().collect();
+            let parsed = mk::<C>(&codes);
+            image_checks_n::<C>(ctx, &parsed.to_comp(), &comp, "to_comp-long", false);
+            image_checks_n::<C>(ctx, &parsed.to_revcomp(), &rc, "to_revcomp-long", false);
+            let mut i = parsed.clone();
+            i.revcomp();
+            image_checks_n::<C>(ctx, &i, &rc, "revcomp-in-place-long", false);
+        }
+    });
+}
+
 fn images_comp<C: CI + ComplementMut>(ctx: &mut Ctx) {
     let a = C::alpha();
     let name = C::NAME;
@@ -383,6 +454,8 @@ fn main() {
         for_each_codec!(ints, ctx);
         for_each_codec!(images, ctx);
         for_each_comp_codec!(images_comp, ctx);
+        for_each_codec!(images_long, ctx);
+        for_each_comp_codec!(images_long_comp, ctx);
         images_bitops(ctx);
         readme_table(ctx);
         if ctx.lite {
@@ -395,7 +468,7 @@ fn main() {
             for_each_k128!(kmer_case, ctx);
             for_each_k64!(kmer_usize, usize, ctx);
         }
-        ctx.note("rule", json!("(a) every slice length with n*BITS<=64 at every achievable bit offset, contents random / all-max-code / single-max-symbol: usize::try_from(&slice), u8::from(&slice) when it fits a byte, usize::from(owned) incl. owned sequences shrunk by truncate/remove; longer slices must give Err. (b) every (codec,K,storage) instantiated: ALL integers below 2^(K*BITS) when K*BITS<=16, else boundary values (0,1,2^j,2^j-1,max) + random: display, Deref symbols, usize::from(&kmer), integer of the k-mer built from those symbols; README table verbatim. (c) owned sequences of every length class produced by parse, collect, to_owned/to_rev/to_comp/to_revcomp of offset slices, chunks collected, clone, |, &, bit_or, bit_and, edits: live bits of into_raw == model packed from bit 0; from_raw(len, image) equal; every requested count 0..cap+2. Distinct = (codec, content, pad) / (codec,K,S,integer) / (codec, provenance, content)."));
+        ctx.note("rule", json!("(a) every slice length with n*BITS<=64 at every achievable bit offset, contents random / all-max-code / single-max-symbol: usize::try_from(&slice), u8::from(&slice) when it fits a byte, usize::from(owned) incl. owned sequences shrunk by truncate/remove; longer slices must give Err. (b) every (codec,K,storage) instantiated: ALL integers below 2^(K*BITS) when K*BITS<=16, else boundary values (0,1,2^j,2^j-1,max) + random: display, Deref symbols, usize::from(&kmer), integer of the k-mer built from those symbols; README table verbatim. (c) owned sequences of every length class produced by parse, collect, to_owned/to_rev/to_comp/to_revcomp of offset slices, chunks collected, clone, |, &, bit_or, bit_and, edits: live bits of into_raw == model packed from bit 0; from_raw(len, image) equal; every requested count 0..cap+2 and counts whose bit length overflows (usize::MAX, usize::MAX/BITS+1, 2^63, ...); long sequences of 4..33 machine words (parse, rev in place and copying, rev-then-push, offset copies, complements) with sampled counts. Distinct = (codec, content, pad) / (codec,K,S,integer) / (codec, provenance, content)."));
         ctx.note("assumptions", json!(["the empty sequence is outside the integer-conversion statement ('non-empty')", "rebuilt sequences longer than the original are compared at bit level only (bits beyond the original length are arbitrary)", "Seq::from(&BitSlice)/Seq::from(BitVec) ('unstable' escape hatches) are not among the listed provenances"]));
     });
 }
